@@ -6,6 +6,7 @@ from sa import AnalysisError
 from sa.kinds import (key, utext, call_name, recv_text, calls_in, node_calls, canon_compare, oriented,
                       loop_body_exits_early, all_stores, sbody)
 from sa.cfg import walk_calls, walk_nodes
+from sa.astutil import gp
 
 EXPLANATION = (
     "Decided part of C07: (R1) in FlumineSimulation._process_market_books every iteration first moves the "
@@ -178,7 +179,7 @@ def run(ctx, rep):
     cop = prog.own_method("Transaction", "_create_order_package")
     kws = [{k.arg: utext(k.value) for k in c.keywords} for c in walk_calls(cop.node.body) if any(
         k.arg == "bet_delay" for k in c.keywords)]
-    rep.check(len(kws) == 1 and kws[0]["bet_delay"] == "self.market.market_book.bet_delay", "R3",
+    rep.check(bool(kws) and all(k["bet_delay"] == "self.market.market_book.bet_delay" for k in kws), "R3",
               key(cop, None, "the bet delay is the one of the book the request was made on"), cop)
     es = prog.own_method("BaseEvent", "elapsed_seconds")
     rep.check(utext(es.node.body[-1]) == "return (datetime.datetime.utcnow() - self._time_created).total_seconds()", "R3",
@@ -276,7 +277,60 @@ def release_loop(ctx, rep, R):
             for x, c2 in via:
                 lst = recv_text(c2)
                 drained = drained or _rebuilt_without(f, "self.handler_queue", lst)
+        if not direct and not drained:
+            drained = _partitioned(cfg, f, "self.handler_queue", pv, n)
         rep.check(bool(direct) or drained, R, key(f, c, "exactly the released packages leave the queue"), f, c)
+
+
+def _partitioned(cfg, f, queue, pv, hnode):
+    """the scan splits the queue: on every way through the loop body a package is either released or appended
+    to ONE list of kept packages (never both, never neither), and after the scan the queue is replaced in place by
+    the kept list (`<queue>[:] = kept`, which may be skipped when both have the same length: nothing was released)"""
+    loops = [lp for lp in walk_nodes(f.node.body, ast.For) if utext(lp.iter) == queue and utext(lp.target) == pv]
+    if len(loops) != 1:
+        return False
+    head = [m for m in cfg.live_nodes() if m.kind == "for" and m.ast is loops[0]]
+    if not head:
+        return False
+    head = head[0]
+    start = [m for l, m in head.succ if l == "iter"]
+    if not start:
+        return False
+    keeps = [(x, c2) for x, c2 in node_calls(cfg, "append") if utext(c2.args[0]) == pv
+             and isinstance(c2.func.value, ast.Name) and c2 in walk_calls(loops[0].body)]
+    kept = {recv_text(c2) for x, c2 in keeps}
+    if len(kept) != 1:
+        return False
+    kept = kept.pop()
+    keep_ids = {x.id for x, c2 in keeps}
+    rel_ids = {x.id for x, c2 in node_calls(cfg, "handler") if c2 in walk_calls(loops[0].body)}
+    # never neither
+    if not cfg.all_paths_pass(start[0], head.id, keep_ids | rel_ids) and start[0] not in (keep_ids | rel_ids):
+        return False
+    # never both
+    for a in keep_ids | rel_ids:
+        other = (keep_ids | rel_ids) - {a}
+        if cfg.reachable(a, blocked_nodes={head.id}, include_src=False) & other:
+            return False
+    # the kept list starts empty, is written nowhere else, and replaces the queue after the scan
+    inits = [st for st in walk_nodes(f.node.body, ast.Assign) if utext(st.targets[0]) == kept]
+    if len(inits) != 1 or utext(inits[0].value) not in ("[]", "list()") or inits[0] in list(ast.walk(loops[0])):
+        return False
+    other_w = [c2 for c2 in walk_calls(f.node.body) if recv_text(c2) == kept and call_name(c2) in (
+        "append", "extend", "insert", "pop", "remove", "clear", "sort", "reverse") and c2 not in [k for x, k in keeps]]
+    if other_w:
+        return False
+    for m in cfg.live_nodes():
+        st = m.ast if m.kind == "stmt" else None
+        if isinstance(st, ast.Assign) and isinstance(st.targets[0], ast.Subscript) and utext(st.targets[0].value) == queue \
+                and isinstance(st.targets[0].slice, ast.Slice) and st.targets[0].slice.lower is None \
+                and st.targets[0].slice.upper is None and utext(st.value) == kept and st not in list(ast.walk(loops[0])):
+            gs = {(utext(g.exprs[0]), pol) for g, pol in cfg.guards(m.id)}
+            same_len = {gp("len(%s) != len(%s)" % (kept, queue)), gp("len(%s) != len(%s)" % (queue, kept)),
+                        gp("len(%s) < len(%s)" % (kept, queue)), gp("len(%s) > len(%s)" % (queue, kept))}
+            if gs <= same_len and cfg.dominates(head.id, m.id):
+                return True
+    return False
 
 
 def _filtered_by_market(f, call, pv):
